@@ -436,6 +436,17 @@ def r7_closure(cx):
     uncond = all(not guard_texts(c, stop=lp) for c in body_calls if call_name(c) in (p[1], visit.name))
     cx.require(calls_visitor and recurses and no_exit and uncond, lp,
                "every dependency is reported to the visitor and recursed into, unconditionally and without early exit")
+    # the walk below a node is cut short only by state of this one walk: a 'seen' set handed in from outside (shared between the roots of
+    # determine_components, whose graph.update replaces whole entries) turns a complete entry into a partial one
+    guarded = [(x, t) for x in walk_body(visit.body) if isinstance(x, (ast.Return, ast.Continue)) for t, pol in guard_texts(x) if " in " in t]
+    outside = set(params(wd)) - set([params(wd)[0], vis_name])
+    leak = [x for x, t in guarded if any(("in %s" % o) in t for o in outside)]
+    cx.require(not leak, leak[0] if leak else wd, "a walk never skips a component because of state handed in from another walk", construct=short(leak[0]) if leak else "def walk_dependencies(%s)" % ", ".join(params(wd)))
+    dc = m.func("determine_components", "C01.R7")
+    gcalls = [c for c in find_calls(dc.body) if call_name(c) in ("get_dependency_graph", "dr.get_dependency_graph")]
+    cx.require(bool(gcalls) and all(len(c.args) == 1 and not c.keywords for c in gcalls), gcalls[0] if gcalls else dc,
+               "determine_components computes the graph of every root on its own (nothing shared between the walks: the per-root graphs are merged entry by entry)",
+               construct="; ".join(short(c, 50) for c in gcalls) or "(no get_dependency_graph call)")
     g = m.func("get_dependency_graph", "C01.R7")
     vis = [n for n in g.body if isinstance(n, FUNC_TYPES)]
     ok = False
